@@ -9,7 +9,7 @@ ATOL = 0.05
 
 
 def check(spec):
-    case = repl.planted(spec['cell'], spec['pair'], spec['copies'], spec['seed'])
+    case = repl.planted(spec['cell'], spec['pair'], spec['copies'], spec['seed'], tilt=spec.get('tilt'))
     motion = None
     if spec.get('motion') is not None:
         rnd = random.Random(spec['motion'])
@@ -60,7 +60,9 @@ def check(spec):
             dev = geo.best_rigid_fit(union_pat, np.vstack([ideal_s, np.array(pts)]))
             if best is None or dev < best[0]:
                 best = (dev, mi)
-        if best is None or best[0] > 4 * ATOL:
+        # the planted copies are exact rigid images (no noise): the rotation found is exact and so is the placement, up to rounding;
+        # with distorted copies the frame is only determined to the scale of the tolerance
+        if best is None or best[0] > (4 * ATOL if spec.get('noise') else 1e-4):
             return "atoms inserted for replaced match #%d are not placed in the frame of any matched pattern (best proper rigid fit deviates %.4f)" % (b, best[0] if best else -1)
         used.add(best[1])
     return None
@@ -70,7 +72,7 @@ def check_fresh(spec):
     """The result depends only on the observable content of the structure: a structure that went through earlier operations
     (replace, replicate, cell assignment) behaves like a freshly constructed object with the same arrays."""
     from mofun import Atoms
-    case = repl.planted(spec['cell'], spec['pair'], spec['copies'], spec['seed'])
+    case = repl.planted(spec['cell'], spec['pair'], spec['copies'], spec['seed'], tilt=spec.get('tilt'))
     sp, rp = repl.patterns(spec['pair'])
     S = case['structure']
     with quiet():
@@ -137,7 +139,7 @@ def run(rec, tier, seed):
                 "fresh equal structure] planted structures in 4 cells (incl. both tilt signs), copies straddling faces/edges/corners, pattern pairs with inserted atoms "
                 "(grow-shared, swap-element, disjoint, sym-grow, collinear-swap, single-swap); checks: every inserted atom inside the cell "
                 "(fractional in [0,1]), matched + inserted atoms form a proper rigid image of search + replacement coordinates modulo the "
-                "lattice (bound 4*atol), result invariant under a joint rigid motion of both patterns. distinct = specs")
+                "lattice (exact copies: bound 1e-4 A), result invariant under a joint rigid motion of both patterns. distinct = specs")
     pairs = ['grow-shared', 'swap-element', 'disjoint', 'sym-grow', 'collinear-swap', 'single-swap', 'grow-planar']
     cells = list(geo.CELLS)
     nseed = 2 if tier == 'quick' else 6
@@ -149,6 +151,13 @@ def run(rec, tier, seed):
                 rec.case(repr(sorted(spec.items())), sample=spec if len(rec.samples) < 2 else None, group='placement')
                 if msg:
                     rec.fail('placement', 'placement', "%s on %r" % (msg, spec), spec, 'C05/placement')
+                if s == 0 and pair in ('grow-shared', 'disjoint', 'grow-planar', 'swap-element'):
+                    # copies exactly aligned with the pattern as written, and turned by angles that are small numbers when read as a length
+                    spt = dict(spec, f=1.0, tilt=[0.0, 0.03, 0.047, 0.012])
+                    msg = check(spt)
+                    rec.case(repr(sorted(spt.items())), group='placement-small-tilt')
+                    if msg:
+                        rec.fail('placement', 'placement', "%s on %r" % (msg, spt), spt, 'C05/placement')
                 # joint-motion invariance is only meaningful when the matched frame is determined: a collinear / symmetric search
                 # pattern with off-axis replacement atoms leaves the azimuth of the inserted atoms undetermined (DESIGN C05)
                 if s == 0 and pair in ('disjoint', 'swap-element', 'grow-planar'):
